@@ -21,6 +21,7 @@ EXPLANATION = (
     "profile; transfer calls wired to one candidate. Does NOT decide that each round elects exactly "
     "the above-threshold set on every input or equality with an independent recount."
 )
+EXPLANATION += " Also decided (prerequisites and later clauses): Ballot's weight validator leaves an exact Fraction as it is (C11.R2)."
 ASSUMPTIONS = ["F4: ElectionState.remaining built by score_dict_to_ranking(scores) is ordered high to low (checked in C04.R5)",
                "int(x) is floor for the non-negative quantities involved"]
 TRUSTED = ["fractions.Fraction arithmetic is exact"]
@@ -174,6 +175,31 @@ def r3_polarity(ctx):
               "for s in remaining: if tally >= threshold: elected.append(s) else: break", "the loop electing above-threshold groups has changed shape")
 
 
+def _default_arm(f, st, name, pm, first_key):
+    """`name = A` directly followed by `if C: name = B` (no else, C not reading name): which case does the default A serve?
+    "other" when C is the winner-first test, "win" when C is its negation, None when the statements are arranged differently."""
+    if name is None or not isinstance(st, ast.Assign):
+        return None
+    blk = pm.get(st)
+    seq = None
+    for fld in ("body", "orelse", "finalbody"):
+        if st in getattr(blk, fld, []):
+            seq = getattr(blk, fld)
+    if seq is None or seq.index(st) + 1 >= len(seq):
+        return None
+    nxt = seq[seq.index(st) + 1]
+    if not isinstance(nxt, ast.If) or nxt.orelse or name in astx.free_names(nxt.test):
+        return None
+    if not (len(nxt.body) == 1 and isinstance(nxt.body[0], ast.Assign) and astx.assigned_names(nxt.body[0].targets[0]) == [name]):
+        return None
+    k = bool_key(Normalizer(f.node, inline=False).guard(nxt.test))
+    if k == first_key:
+        return "other"
+    if k == "not " + first_key:
+        return "win"
+    return None
+
+
 def r4_surplus_factor(ctx):
     prog = ctx.prog
     f = prog.find_func("fractional_transfer")
@@ -226,8 +252,19 @@ def r4_surplus_factor(ctx):
             ctx.check(got.equals(spec_rat("W")), f, st, "other ballots keep their weight", got.key(),
                       f"a ballot not led by the winner gets weight `{got.key()}`")
         else:
-            ctx.violated(f, st, "transferred weight is not decided by `first position == {winner}`",
-                         f"weight `{got.key()}` assigned under `{sorted(lits)}`")
+            # default-then-override:  w = A ; if <first position == {winner}>: w = B   is the two-armed choice with A in the else arm
+            side = _default_arm(f, st, wv.id if isinstance(wv, ast.Name) else None, pm, first_key)
+            if side == "other":
+                seen_other = True
+                ctx.check(got.equals(spec_rat("W")), f, st, "other ballots keep their weight", got.key(),
+                          f"a ballot not led by the winner gets weight `{got.key()}`")
+            elif side == "win":
+                seen_win = True
+                ctx.check(got.equals(spec_w), f, st, "winner-first ballot moves on at weight*(tally-threshold)/tally", got.key(),
+                          f"transferred weight is `{got.key()}`; documented `{spec_w.key()}`")
+            else:
+                ctx.violated(f, st, "transferred weight is not decided by `first position == {winner}`",
+                             f"weight `{got.key()}` assigned under `{sorted(lits)}`")
     ctx.check(seen_win and seen_other, f, ctors[0], "both weight cases present (winner-first / not)", "", "a weight case is missing")
     # SequentialRCV: full weight
     s = prog.find_func("SequentialRCV.__init__")
@@ -610,4 +647,16 @@ BENIGN = [
     ("factor inlined", [(TR_PY, "transfered_weight = ballot.weight * Fraction(transfer_value)", "transfered_weight = ballot.weight * Fraction((fpv - threshold) / fpv)")]),
     ("default election rearranged", [(STV_PY, "elif len(profile.candidates) == self.m - len(\n            [c for s in self.get_elected(prev_state.round_number) for c in s]\n        ):",
                                       "elif len(profile.candidates) + len(\n            [c for s in self.get_elected(prev_state.round_number) for c in s]\n        ) == self.m:")]),
+]
+
+# the two weight cases written as default-then-override (clause of C02.R4, shared by C03.R7 / C08.R5)
+_W_CASES = ("            if ballot.ranking[0] == {winner}:\n                transfered_weight = ballot.weight * Fraction(transfer_value)\n"
+            "            else:\n                transfered_weight = ballot.weight\n")
+BENIGN += [
+    ("weight cases as default-then-override", [("src/votekit/elections/transfers.py", _W_CASES,
+        "            transfered_weight = ballot.weight\n            if ballot.ranking[0] == {winner}:\n                transfered_weight = ballot.weight * Fraction(transfer_value)\n")]),
+]
+FAULTS += [
+    ("default-then-override with the test negated", [("src/votekit/elections/transfers.py", _W_CASES,
+        "            transfered_weight = ballot.weight\n            if ballot.ranking[0] != {winner}:\n                transfered_weight = ballot.weight * Fraction(transfer_value)\n")], "C02.R4"),
 ]
